@@ -271,6 +271,8 @@ def run(ctx: Ctx) -> None:
     from .common import pmap
     ctx.evaluations += inflight.run(ctx, "C01")
     ctx.evaluations += inflight.run_noprot(ctx)
+    from . import memberkeys
+    ctx.evaluations += memberkeys.run(ctx)      # general JSON: every member under the key resolved for it (JwsMemberKeys.tla)
     spairs = [(k, a, b, 1, ctx.seed, 20 if thorough else 4) for k in (("oct256", "EC:P-256", "RSA2048") if thorough else ("oct256", "EC:P-256"))
               for a, b in (("verify_forged", "verify"), ("verify_forged", "verify2"), ("verify_forged", "verify_forged"), ("verify_forged", "sign"))]
     for (kind, a, b, na, nb), n, found in pmap(c20.explore, spairs, chunksize=1, procs=8):
@@ -303,6 +305,9 @@ def replay(ctx: Ctx, rec: dict) -> None:
     if rec.get("inflight"):
         from . import inflight
         return inflight.replay(ctx, rec)
+    if "memberkeys_case" in rec:
+        from . import memberkeys
+        return memberkeys.replay(ctx, rec)
     if "ops" in rec:
         from . import c20
         problems, _ = c20.run_schedule(rec["kind"], rec["ops"], [tuple(p) for p in rec["preempts"]], rec["first"])
